@@ -34,6 +34,9 @@ pub enum Instr {
     BcastMax,
     /// key_by(x%2).map(v+1).drop_key
     KeyedMap,
+    /// fault injection (harness operator): panic when replica `r` of the enclosing block sees its
+    /// `k`-th element (1-based); identity otherwise
+    PanicAt(u64, usize),
     /// group_by(x%2) + exact tumbling count window of 2 + sum (order dependent: only generated on
     /// fully sequential configurations)
     CountWin,
@@ -152,6 +155,7 @@ fn unary<O: Operator<Out = i64> + 'static>(s: Stream<O>, i: &Instr) -> DS<i64> {
                 .map(|(k, v)| enc_kv(k, v)),
         ),
         Instr::KeyedMap => erase(s.key_by(|x: &i64| x % 2).map(|(_, v)| v + 1).drop_key()),
+        Instr::PanicAt(r, k) => erase(crate::kit::panic_at(s, *r, *k)),
         Instr::CountWin => erase(
             s.group_by(|x: &i64| x % 2)
                 .window(renoir::operator::window::CountWindow::tumbling(2))
@@ -319,7 +323,7 @@ fn ref_unary(v: Vec<i64>, i: &Instr) -> Vec<i64> {
         Instr::Map => v.into_iter().map(f_map).collect(),
         Instr::Filter => v.into_iter().filter(f_filter).collect(),
         Instr::FlatMap => v.into_iter().flat_map(f_flat).collect(),
-        Instr::Shuffle | Instr::ReplOne | Instr::ReplLim2 | Instr::ReplHost => v,
+        Instr::Shuffle | Instr::ReplOne | Instr::ReplLim2 | Instr::ReplHost | Instr::PanicAt(..) => v,
         Instr::GbSum | Instr::GbFoldAssoc => keyed_agg(&v, 3, |a, b| a + b),
         Instr::GbReduceMax | Instr::GbReduceAssoc | Instr::BcastMax => keyed_agg(&v, 2, |a, b| a.max(b)),
         Instr::Fold | Instr::FoldAssoc | Instr::Reduce | Instr::ReduceAssoc => {
@@ -451,7 +455,7 @@ pub enum Rep {
 /// combination (loops need an unlimited block).
 fn rep_unary(i: &Instr, r: Rep) -> Option<Rep> {
     Some(match i {
-        Instr::Map | Instr::Filter | Instr::FlatMap | Instr::KeyedMap => r,
+        Instr::Map | Instr::Filter | Instr::FlatMap | Instr::KeyedMap | Instr::PanicAt(..) => r,
         Instr::Shuffle
         | Instr::GbSum
         | Instr::GbReduceMax
